@@ -96,3 +96,9 @@ Definition bad_sread := bad check_sread.
 
 (* shorthand used by the generated case files: n copies of byte b *)
 Definition rep (b n : N) : bytes := repeat b (N.to_nat n).
+
+(* compact form of a sparse dump: maximal runs of non-zero bytes as (start, bytes) *)
+Fixpoint seg_pairs (a : N) (bs : bytes) : list (N * N) :=
+  match bs with [] => [] | b :: r => (a, b) :: seg_pairs (a + 1) r end.
+Definition segs (l : list (N * bytes)) : list (N * N) := flat_map (fun s => seg_pairs (fst s) (snd s)) l.
+Definition Sg (a : N) (bs : bytes) : N * bytes := (a, bs).
